@@ -488,11 +488,12 @@ impl AddressLookupServices {
     ///
     /// If there is historical Address Lookup data, it will be published immediately on this service.
     pub fn add_boxed(&self, service: Box<dyn AddressLookup>) {
-        {
-            let data = self.last_data.read().expect("poisoned");
-            if let Some(data) = &*data {
-                service.publish(data)
-            }
+        // `last_data` stays locked until the service is in the list: `publish` takes it
+        // exclusively first, so no publish can fall between priming the new service with the
+        // historical data and adding it.  Lock order is `last_data`, then `services`.
+        let data = self.last_data.read().expect("poisoned");
+        if let Some(data) = &*data {
+            service.publish(data)
         }
         self.services.write().expect("poisoned").push(service);
     }
@@ -519,15 +520,17 @@ impl AddressLookupServices {
             Some(filter) => data.apply_filter(filter),
             None => Cow::Borrowed(data),
         };
+        // Taken exclusively before the fan-out and held until the new value is stored:
+        // this serialises concurrent publishes and excludes `add_boxed`, so every service
+        // ends up with the data that is stored as `last_data`.
+        let mut last_data = self.last_data.write().expect("poisoned");
         let services = self.services.read().expect("poisoned");
         for service in &*services {
             service.publish(&data);
         }
+        drop(services);
 
-        self.last_data
-            .write()
-            .expect("poisoned")
-            .replace(data.into_owned());
+        last_data.replace(data.into_owned());
     }
 
     /// Resolves the addressing information for an [`EndpointId`] across all configured services.
